@@ -83,7 +83,8 @@ def do_run(sid, tier='quick'):
     finally:
         shutil.rmtree(root, ignore_errors=True)
         # the run above regenerated coq/gen/*.v from the CHANGED copy: regenerate them from /repo so that nothing stale is left behind
-        sh([PY, os.path.join(VERIF, 'py', 'py2v.py')], env=dict(os.environ, PYTHONPATH='/repo/src:/verif/py'), cwd=VERIF)
+        if pid in ('C09', 'C10'):      # only these two checks use the translator (and they must not run concurrently with each other)
+            sh([PY, os.path.join(VERIF, 'py', 'py2v.py')], env=dict(os.environ, PYTHONPATH='/repo/src:/verif/py'), cwd=VERIF)
     viol = [l for l in out2.split('\n') if l.startswith('VIOLATION')]
     concrete = [l for l in viol if 'no-failing-input-found' not in l]
     sigs = []
